@@ -863,11 +863,261 @@ def table_ctor_of(src, nparams):
         size_init, ("some " + fold) if fold else "none", canon_i(cells, want_cells, g), canon_i(cur, want_cells, g), slot)
 
 
+# ---- round four: the loops of merge() as a little program ------------------------------------------------
+def parse_stmt_list(s):
+    """statement list with nested if/else -> [('simple', text) | ('if', cond, then_list, else_list)]"""
+    pos = [0]
+
+    def ws():
+        while pos[0] < len(s) and s[pos[0]] == " ":
+            pos[0] += 1
+
+    def stmt():
+        ws()
+        m = re.match(r"if\s*\(", s[pos[0]:])
+        if m:
+            i = pos[0] + m.end() - 1
+            j = match_close(s, i, "(", ")")
+            cond = s[i + 1:j]
+            pos[0] = j + 1
+            t = stmt_or_block()
+            ws()
+            e = []
+            if re.match(r"else\b", s[pos[0]:]):
+                pos[0] += 4
+                e = stmt_or_block()
+            return [("if", cond, t, e)]
+        if s[pos[0]] == "{":
+            return stmt_or_block()
+        k = s.index(";", pos[0])
+        txt = s[pos[0]:k].strip()
+        pos[0] = k + 1
+        return [("simple", txt)] if txt else []
+
+    def stmt_or_block():
+        ws()
+        if pos[0] < len(s) and s[pos[0]] == "{":
+            e = match_close(s, pos[0], "{", "}")
+            inner = parse_stmt_list(s[pos[0] + 1:e])
+            pos[0] = e + 1
+            return inner
+        return stmt()
+
+    out = []
+    while True:
+        ws()
+        if pos[0] >= len(s):
+            return out
+        out += stmt()
+
+
+def merge_prog_of(mb):
+    """the `else if` block of merge() -> Lean list of MLoop"""
+    m = re.match(r"^\s*if\s*\(", mb)
+    if not m:
+        raise TranslateError("merge() does not start with if")
+    j = match_close(mb, m.end() - 1, "(", ")")
+    k = mb.index("{", j)
+    e = match_close(mb, k, "{", "}")
+    m2 = re.match(r"^\s*else\s+if\s*\(", mb[e + 1:])
+    if not m2:
+        raise TranslateError("else-if not found")
+    j2 = match_close(mb, e + 1 + m2.end() - 1, "(", ")")
+    k2 = mb.index("{", j2)
+    e2 = match_close(mb, k2, "{", "}")
+    if mb[e2 + 1:].strip():
+        raise TranslateError("statements behind the else-if block")
+    block = mb[k2 + 1:e2]
+    names = {}
+    loops = []
+    done = False
+    for st in split_statements(block):
+        if done:
+            raise TranslateError("statement behind the final assignment")
+        d = re.match(r"^(?:const\s+)?(?:auto|typename\s+[\w:<>, ]+|[\w:<>, ]+?)\s+(\w+)\s*=\s*(localIndices_|newIndices_)\s*\.\s*(begin|end)\s*\(\s*\)$", st)
+        if d and not loops:
+            names[(d.group(2), d.group(3))] = d.group(1)
+            continue
+        d = re.match(r"^ArrayList\s*<[^>]*>\s+(\w+)$", st)
+        if d and not loops:
+            names["temp"] = d.group(1)
+            continue
+        if st.startswith("while"):
+            OLD, ADDED = names[("localIndices_", "begin")], names[("newIndices_", "begin")]
+            EO, EA, TEMP = names[("localIndices_", "end")], names[("newIndices_", "end")], names["temp"]
+            i = st.index("(")
+            j = match_close(st, i, "(", ")")
+            need_old = need_added = False
+            for c in st[i + 1:j].split("&&"):
+                c = c.strip()
+                if re.match(r"^(?:%s\s*!=\s*%s|%s\s*!=\s*%s)$" % (OLD, EO, EO, OLD), c):
+                    need_old = True
+                elif re.match(r"^(?:%s\s*!=\s*%s|%s\s*!=\s*%s)$" % (ADDED, EA, EA, ADDED), c):
+                    need_added = True
+                else:
+                    raise TranslateError("loop condition not understood: %r" % c)
+            body = parse_stmt_list(st[j + 1:].strip())
+
+            def simple(t):
+                if re.match(r"^%s\s*\.\s*push_back\s*\(\s*\*\s*%s\s*\)$" % (TEMP, OLD), t):
+                    return ".pushOld"
+                if re.match(r"^%s\s*\.\s*push_back\s*\(\s*\*\s*%s\s*\)$" % (TEMP, ADDED), t):
+                    return ".pushAdded"
+                if re.match(r"^%s\s*\.\s*eraseToHere\s*\(\s*\)$" % OLD, t):
+                    return ".eraseOld"
+                if re.match(r"^%s\s*\.\s*eraseToHere\s*\(\s*\)$" % ADDED, t):
+                    return ".eraseAdded"
+                return None
+
+            def cond(t):
+                d = re.match(r"^\s*(?:%s\s*->|\(\s*\*\s*%s\s*\)\s*\.)\s*local\s*\(\s*\)\s*\.\s*state\s*\(\s*\)\s*(==|!=)\s*DELETED\s*$" % (OLD, OLD), t)
+                if d:
+                    return "(.var .oldDeleted)" if d.group(1) == "==" else "(.not (.var .oldDeleted))"
+                return canon_b(norm_cmp(t, OLD, ADDED), CANON_BEFORE, CMPGRID)
+
+            def norm(sts):
+                acts = []
+                for n, x in enumerate(sts):
+                    if x[0] == "simple":
+                        if x[1] == "continue":
+                            break
+                        a = simple(x[1])
+                        if a is None:
+                            return ".unknown"
+                        acts.append(a)
+                    else:
+                        if acts:
+                            return ".unknown"   # a condition evaluated after an action: outside the grammar
+                        rest = sts[n + 1:]
+                        return "(.ite %s %s %s)" % (cond(x[1]), norm(x[2] + rest), norm(x[3] + rest))
+                return "(.acts [%s])" % ", ".join(acts)
+
+            loops.append("{ needOld := %s, needAdded := %s, body := %s }" % (lean_bool(need_old), lean_bool(need_added), norm(body)))
+            continue
+        if re.match(r"^localIndices_\s*=\s*(?:std\s*::\s*move\s*\(\s*)?%s\s*\)?$" % names.get("temp", "tempPairs"), st):
+            done = True
+            continue
+        raise TranslateError("statement not understood: %r" % st[:50])
+    if not done:
+        raise TranslateError("the merged list is not assigned to localIndices_")
+    return "[" + ",\n   ".join(loops) + "]"
+
+
+def merge_copy_branch_of(mb):
+    """the statements of the first branch of merge() (`localIndices_.size()==0`) -> Lean list of CopyAct"""
+    m = re.match(r"^\s*if\s*\(", mb)
+    if not m:
+        raise TranslateError("merge() does not start with if")
+    j = match_close(mb, m.end() - 1, "(", ")")
+    k = mb.index("{", j)
+    e = match_close(mb, k, "{", "}")
+    res = []
+    for st in split_statements(mb[k + 1:e]):
+        if re.match(r"^localIndices_\s*=\s*newIndices_$", st):
+            res.append(".assignNewToLocal")
+        elif re.match(r"^newIndices_\s*\.\s*clear\s*\(\s*\)$", st):
+            res.append(".clearNew")
+        elif re.match(r"^(?:localIndices_\s*\.\s*swap\s*\(\s*newIndices_\s*\)|newIndices_\s*\.\s*swap\s*\(\s*localIndices_\s*\)|(?:std\s*::\s*)?swap\s*\(\s*(?:localIndices_\s*,\s*newIndices_|newIndices_\s*,\s*localIndices_)\s*\))$", st):
+            res.append(".assignNewToLocal, .clearNew")
+        else:
+            res.append(".unknown")
+    return "[" + ", ".join(res) + "]"
+
+
+# ---- round four: constructors / assignment / setState of the local index classes -------------------------
+MEMBERS = {"localIndex_": ".loc", "attribute_": ".attr", "public_": ".pub", "state_": ".state"}
+
+
+def init_value(expr, params):
+    x = expr.strip()
+    while True:
+        m = re.match(r"^(?:static_cast\s*<[^>]*>|char|bool|std\s*::\s*size_t|size_t)\s*\((.*)\)$", x)
+        if not m:
+            break
+        x = m.group(1).strip()
+    if x in params:
+        return "(.param %d)" % params.index(x)
+    table = {"": ".zero", "0": ".zero", "false": ".falseV", "true": ".trueV", "VALID": ".valid", "DELETED": ".deleted"}
+    if x in table:
+        return table[x]
+    raise TranslateError("initial value not understood: %r" % expr)
+
+
+def ctors_of(src, head_rx):
+    """all constructors `HEAD(params) : inits {}` -> {nparams: Lean LIdxCtor}"""
+    res = {}
+    for m in re.finditer(head_rx + r"\s*\(([^()]*)\)\s*:\s*([^{};]*)\{\s*\}", src):
+        params = param_names(m.group(1)) if m.group(1).strip() else []
+        vals = {"localIndex_": ".zero", "attribute_": ".zero", "public_": ".falseV", "state_": None}
+        for it in split_params(m.group(2)):
+            mm = re.match(r"^\s*(\w+)\s*[\(\{](.*)[\)\}]\s*$", it)
+            if not mm or mm.group(1) not in MEMBERS:
+                raise TranslateError("initialiser not understood: %r" % it)
+            vals[mm.group(1)] = init_value(mm.group(2), params)
+        if vals["state_"] is None:
+            raise TranslateError("state_ is not initialised")
+        res[len(params)] = "some { loc := %s, attr := %s, pub := %s, state := %s }" % (
+            vals["localIndex_"], vals["attribute_"], vals["public_"], vals["state_"])
+    return res
+
+
+def writes_of(src, sig_rx):
+    bs = bodies(src, sig_rx)
+    if len(bs) != 1:
+        raise TranslateError("%d definitions" % len(bs))
+    params = param_names(bs[0][0])
+    res = []
+    for st in split_statements(bs[0][2]):
+        if re.match(r"^return\s+\*\s*this$", st):
+            continue
+        m = re.match(r"^(\w+)\s*=\s*(.+)$", st)
+        if not m or m.group(1) not in MEMBERS:
+            raise TranslateError("statement not understood: %r" % st[:40])
+        res.append("(%s, %s)" % (MEMBERS[m.group(1)], init_value(m.group(2), params)))
+    return "[" + ", ".join(res) + "]"
+
+
+def state_enum_of(lsrc):
+    m = re.search(r"enum\s+LocalIndexState\s*\{([^}]*)\}", lsrc)
+    if not m:
+        raise TranslateError("enum LocalIndexState not found")
+    names = [x.strip() for x in m.group(1).split(",") if x.strip()]
+    if any("=" in x for x in names):
+        raise TranslateError("enumerators with explicit values")
+    return "[" + ", ".join('"%s"' % x for x in names) + "]"
+
+
+def set_ctor_of(src):
+    """ParallelIndexSet<TG,TL,N>::ParallelIndexSet() : state_(..), seqNo_(..), deletedEntries_(..) {} -> Lean SetCtor"""
+    m = re.search(r"ParallelIndexSet\s*<[^>]*>\s*::\s*ParallelIndexSet\s*\(\s*\)\s*:\s*([^{};]*)\{\s*\}", src)
+    if not m:
+        raise TranslateError("default constructor with empty body not found")
+    vals = {}
+    for it in split_params(m.group(1)):
+        mm = re.match(r"^\s*(\w+)\s*[\(\{](.*)[\)\}]\s*$", it)
+        if not mm:
+            raise TranslateError("initialiser not understood: %r" % it)
+        vals[mm.group(1)] = mm.group(2).strip()
+    extra = set(vals) - {"state_", "seqNo_", "deletedEntries_", "localIndices_", "newIndices_"}
+    if extra or vals.get("localIndices_", "") or vals.get("newIndices_", ""):
+        raise TranslateError("unexpected initialisers")
+    st = {"GROUND": ".ground", "RESIZE": ".resize"}.get(vals.get("state_"))
+    if st is None:
+        raise TranslateError("state_ initialiser not understood")
+    if not re.match(r"^\d+$", vals.get("seqNo_", "")):
+        raise TranslateError("seqNo_ initialiser not understood")
+    dl = {"": "false", "false": "false", "true": "true"}.get(vals.get("deletedEntries_", ""))
+    if dl is None:
+        raise TranslateError("deletedEntries_ initialiser not understood")
+    return "some { state := %s, seq := %d, del := %s }" % (st, int(vals["seqNo_"]), dl)
+
+
 # ------------------------------------------------------------------------------------------------
 def translate(repo):
     try:
         src = prepare(open(os.path.join(repo, "dune/common/parallel/indexset.hh")).read())
         psrc = prepare(open(os.path.join(repo, "dune/common/parallel/plocalindex.hh")).read())
+        lsrc = prepare(open(os.path.join(repo, "dune/common/parallel/localindex.hh")).read())
     except OSError as ex:
         raise TranslateError("cannot read the index set headers: %s" % ex)
     if "class ParallelIndexSet" not in src:
@@ -1011,6 +1261,35 @@ def translate(repo):
     # These pieces are LOUD: when the source leaves the grammar, `.unknown` / `none` is emitted and the theorem about the
     # piece no longer compiles (broken obligation => the run searches for a failing input).
     o.loud("endResizeCalls", "List Call", lambda: calls_of_endresize(method("endResize", 0)), "[.sortNew, .merge]", "[.unknown]")
+    PLI = r"ParallelLocalIndex\s*<\s*\w+\s*>\s*::\s*"
+    VALIDC = "some { loc := %s, attr := %s, pub := %s, state := .valid }"
+    o.loud("stateEnum", "List String", lambda: state_enum_of(lsrc), '["VALID", "DELETED"]', "[]")
+    o.loud("plocalCtor3", "Option LIdxCtor", lambda: ctors_of(psrc, PLI + "ParallelLocalIndex")[3],
+           VALIDC % ("(.param 0)", "(.param 1)", "(.param 2)"), "none")
+    o.loud("plocalCtor2", "Option LIdxCtor", lambda: ctors_of(psrc, PLI + "ParallelLocalIndex")[2],
+           VALIDC % (".zero", "(.param 0)", "(.param 1)"), "none")
+    o.loud("plocalCtor0", "Option LIdxCtor", lambda: ctors_of(psrc, PLI + "ParallelLocalIndex")[0],
+           VALIDC % (".zero", ".zero", ".falseV"), "none")
+    o.loud("plocalAssign", "List (Member × Init)", lambda: writes_of(psrc, PLI + r"operator\s*=\s*(?=\()"),
+           "[(.loc, (.param 0))]", "[]")
+    o.loud("plocalSetState", "List (Member × Init)", lambda: writes_of(psrc, PLI + r"setState\s*(?=\()"),
+           "[(.state, (.param 0))]", "[]")
+    o.loud("lindexCtor1", "Option LIdxCtor", lambda: ctors_of(lsrc, r"\bLocalIndex")[1],
+           VALIDC % ("(.param 0)", ".zero", ".falseV"), "none")
+    o.loud("lindexCtor0", "Option LIdxCtor", lambda: ctors_of(lsrc, r"\bLocalIndex")[0],
+           VALIDC % (".zero", ".zero", ".falseV"), "none")
+    o.loud("lindexAssign", "List (Member × Init)", lambda: writes_of(lsrc, r"\bLocalIndex\s*::\s*operator\s*=\s*(?=\()"),
+           "[(.loc, (.param 0))]", "[]")
+    o.loud("lindexSetState", "List (Member × Init)", lambda: writes_of(lsrc, r"\bLocalIndex\s*::\s*setState\s*(?=\()"),
+           "[(.state, (.param 0))]", "[]")
+    o.loud("mergeProg", "List MLoop", lambda: merge_prog_of(method("merge", 0)),
+           "[{ needOld := true, needAdded := true, body := (.ite (.var .oldDeleted) (.acts [.eraseOld]) (.ite %s (.acts [.pushOld, .eraseOld]) (.acts [.pushAdded, .eraseAdded]))) },\n   "
+           "{ needOld := true, needAdded := false, body := (.ite (.not (.var .oldDeleted)) (.acts [.pushOld, .eraseOld]) (.acts [.eraseOld])) },\n   "
+           "{ needOld := false, needAdded := true, body := (.acts [.pushAdded, .eraseAdded]) }]" % lean(parse_b(CANON_BEFORE)),
+           "[{ needOld := false, needAdded := false, body := .unknown }]")
+    o.loud("setCtor", "Option SetCtor", lambda: set_ctor_of(src), "some { state := .ground, seq := 0, del := false }", "none")
+    o.loud("mergeCopyBranch", "List CopyAct", lambda: merge_copy_branch_of(method("merge", 0)),
+           "[.assignNewToLocal, .clearNew]", "[.unknown]")
     o.loud("renumber", "Option Renum", lambda: renumber_of(method("renumberLocal", 0)),
            "some { start := 0, step := 1, value := (.var .index) }", "none")
     o.loud("tableAuto", "Option TableCtor", lambda: table_ctor_of(src, 1),
